@@ -1,4 +1,5 @@
 import Props.C06RefineC
+import Props.C06Slack
 /-!
 # C06 (and C13, see `Props/C13Refine.lean`) — every behaviour of the micro-step model is accepted by the specification predicate
 
@@ -113,6 +114,24 @@ theorem c06_model_run_tracked (cfg : List (Bool × Nat)) {evs : List Ev} {s' : S
     ∃ t' w', feedAll (start cfg.length) (historyOf (cfg.map fresh) evs) = some t' ∧ Sim s' w' t' :=
   ⟨c06_model_histories_accepted cfg evs, feedAll_historyFrom Reachable.init (sim_init cfg) h⟩
 
+/-- **Logging slack (partial).** The harness logs `eX` some time *after* the last atomic operation of a drop,
+possibly after observations of other threads.  For the ends of owner / flush-guard / force-flush-guard drops this
+keeps a history accepted: moving an `eR`, `eF` or `eD` one place to the right (hence any number of places)
+preserves `Spec.accept`.  Together with `c06_model_histories_accepted`: the history of a model schedule with these
+end observations logged arbitrarily late is accepted.
+
+Missing for the full statement (argued in notes/C06.md): the same for `eG i` (needs a "more permissive" preorder on
+automaton states because `sure := !cond` is evaluated later) and for `bR`/`bF`/`bD`/`bG i` moved to the left across
+observations of other threads. -/
+theorem c06_logging_slack_partial (n : Nat) (pre rest : List Obs) {e o : Obs} (he : e = .eR ∨ e = .eF ∨ e = .eD)
+    (h : Spec.accept n (pre ++ e :: o :: rest) = true) : Spec.accept n (pre ++ o :: e :: rest) = true := by
+  simp only [Spec.accept, acceptFrom_append] at h ⊢
+  cases hf : feedAll (start n) pre with
+  | none => simp [hf] at h
+  | some t1 =>
+    simp only [hf] at h ⊢
+    exact acceptFrom_end_later he h
+
 /-! ## Non-vacuity (kernel-evaluated) -/
 
 /-- two threads: the owner's drop (`bR … eR`) interleaved with a force-flush guard's drop (`bD … eD`); the
@@ -133,7 +152,11 @@ example : Spec.accept 0 [.nD, .bD, .eD, .bR, .eR] = false := by decide
 example : Spec.accept 0 [.bR, .app 0 0 [], .app 0 0 [], .eR] = false := by decide
 /-- … stale contents. -/
 example : Spec.accept 0 [.mut 7, .bR, .app 0 0 [], .eR] = false := by decide
+/-- slack: the owner's `eR` of the first example logged two places later (after the append) is still accepted -/
+example : Spec.accept 0 [.nF, .nD, .mut 7, .hit 5, .bR, .bD, .app 7 5 [], .eD, .eR] = true := by decide
+
 end KeepAlive
 
 #print axioms KeepAlive.c06_model_histories_accepted
 #print axioms KeepAlive.c06_model_run_tracked
+#print axioms KeepAlive.c06_logging_slack_partial
